@@ -348,8 +348,8 @@ PROPS["C08"] = {
     "level_text": "Generated histories of connection events against the real server, with invariants over the observed callback history and process resources. Exploration only.",
     "level_note": "HTTP-level variant (Http::Handler subclass whose onConnection performs the base class's one-line parser registration); the idle scan / 408 path is included. Endpoint-lifetime descriptors are part of the baseline. Quiescence is polled with 3-4 s bounds (3x replay rule).",
     "assumptions": ["/proc/self/fd reflects leaked sockets; no other thread of the harness opens descriptors during a case"],
-    "quick": {"stages": [{"kind": "replay"}, {"kind": "rc", "procs": 6, "cases": 8, "maxlen": 300}]},
-    "thorough": {"stages": [{"kind": "replay"}, {"kind": "rc", "procs": 8, "cases": 120, "maxlen": 300}]},
+    "quick": {"stages": [{"kind": "replay"}, {"kind": "rc", "procs": 6, "cases": 12, "maxlen": 450}]},
+    "thorough": {"stages": [{"kind": "replay"}, {"kind": "rc", "procs": 8, "cases": 120, "maxlen": 450}]},
 }
 
 PROPS["C06"] = {
